@@ -92,6 +92,8 @@ def classify(row):
             out.add("C06")
         elif v.startswith("final-state"):
             out |= {"C08", "C07"}
+        elif v.startswith("range-check"):
+            out.add("C07")
         elif v.startswith(("deadlock", "budget")):
             out.add("C13")
         elif v.startswith("panic"):
